@@ -108,7 +108,9 @@ def prefix_composition(repo, res):
     if len(stores) != 1:
         raise AnalysisError(f"{fn.where()}: expected exactly one write-back into the table, found {len(stores)}")
     st = stores[0]
-    tup = ex.expand_node(st.value)
+    from engine.sem import canon_node
+
+    tup = canon_node(ex.expand_node(st.value))
     if not isinstance(tup, ast.Tuple) or len(tup.elts) != 5:
         raise AnalysisError(f"{fn.where(st)}: stored value is not a 5-tuple")
     split = f"_split_prefix({sym}, {lut})"
@@ -121,7 +123,7 @@ def prefix_composition(repo, res):
     res.check(isinstance(tup.elts[4], ast.Constant) and tup.elts[4].value is False, "not-prefixable", fn.where(st), "a derived prefixed row must not itself be prefixable", "False", norm(tup.elts[4]), rid=r2)
     rets = [n for n in ast.walk(fn.node) if isinstance(n, ast.Return)]
     ok = all(
-        ex.expand(r.value) in (norm(tup), f"{lut}[{sym}]") for r in rets
+        norm(canon_node(ex.expand_node(r.value))) in (norm(tup), f"{lut}[{sym}]") for r in rets
     ) and len(rets) == 2
     res.check(ok, "returns", fn.where(), "the function returns either the direct table hit or exactly the derived row it stored", rid=r2)
 
